@@ -117,10 +117,9 @@ class UdpServerThread(Thread):
         for pkt, key, addr in seq:
             try:
                 datagram = pkt.to_bytes(key)
+                self.sock.sendto(datagram, addr)
             except Exception as e:
-                self.ctxt.log.exception("%s:%d unable to encode packet" % addr)
-
-            self.sock.sendto(datagram, addr)
+                self.ctxt.log.exception("unable to send packet to %s", addr)
 
     def update_stats(self):
         self.perf_data.append(self.perf)
